@@ -71,6 +71,7 @@ def obligations(ctx, tier):
                     conv = "<u32 as core::convert::TryFrom<%s>>::try_from" % R.replace("<M>", "<N>")
                     out.append(core.f_row(K, PROP, byval,
                                           call(inh(A, m), P(0), expect_ok(callg(conv, "::<M>", P(1)), cls))))
+                    out += bnum_amount_rows(K, A, byval, R[:-3], m)
                     for sref, rref in ((True, False), (False, True), (True, True)):
                         fid = tr(A, OPS + Tr, [("&" if rref else "") + R], m, self_ref=sref)
                         out.append(core.f_row(K, PROP, fid, call(byval, P(0), P(1))))
@@ -93,6 +94,7 @@ def obligations(ctx, tier):
                 D = DIGIT[A]
                 out.append(core.f_row(K, PROP, tr(A, OPS + "Div", [D], "div"), field(call(inh(A, "div_rem_digit"), P(0), P(1)), 0)))
                 out.append(core.f_row(K, PROP, tr(A, OPS + "Rem", [D], "rem"), field(call(inh(A, "div_rem_digit"), P(0), P(1)), 1)))
+                out += digit_operand_rows(K, A, D)
             # ---- Sum / Product
             out += fold_rows(K, A)
             out += fold_value_rows(K, A)
@@ -177,3 +179,58 @@ def fold_value_rows(K, A):
         for item in (T, "&" + T):
             out += core.g_row(K, PROP, tr(A, trait, [item], m), reps)
     return out
+
+
+def digit_operand_rows(K, A, D):
+    """`x / d` and `x % d` with a digit-typed divisor: value for d != 0, panic for d == 0"""
+    from . import arith
+    db = {"u8": 8, "u16": 16, "u32": 32, "u64": 64}[D]
+    dvals = [0, 1, 2, 3, 4, 7, 1 << (db - 1), (1 << db) - 1, (1 << (db // 2))]
+    xs = [(n, f) for n, f in arith._values(A) if n in ("0", "1", "5", "half", "MAXm1", "MAX", "top")]
+    out = []
+    for Tr, m in (("Div", "div"), ("Rem", "rem")):
+        def exp(W, env, m=m):
+            x, d = env[0].v, env[1].v
+            if d == 0:
+                return ("panic", "*")
+            return ("val", W.wrap(A, x // d)) if m == "div" else ("val", PI(D, x % d))
+        reps = [("%s_%d" % (n, d), (lambda f=f, d=d: lambda W: {0: W.wrap(A, f(W)), 1: PI(D, d)})(), exp) for n, f in xs for d in dvals]
+        out += core.g_row(K, PROP, tr(A, OPS + Tr, [D], m), reps)
+    return out
+
+
+def bnum_amount_rows(K, A, fid, R, m):
+    """`x << amount` / `x >> amount` with a bnum-typed amount of M digits: amounts in 0..BITS shift exactly (both build
+    modes, every amount type that can hold the amount); other amounts are outside the property"""
+    from . import arith
+    from analysis.guards import BN
+    signed_amt = R in SIGNED
+    xs = [(n, f) for n, f in arith._values(A) if n in ("1", "5", "MAX", "MIN", "n1", "top")]
+
+    def exp(W, env):
+        x, s_ = env[0].v, env[1].v
+        w = W.bits(A)
+        if s_ < 0 or s_ >= w:
+            return ("any",)         # the property fixes bnum-typed amounts below BITS only
+        pat = x & ((1 << w) - 1)
+        return ("val", W.wrap(A, (pat << s_) if m == "shl" else (x >> s_)))
+    reps = []
+    for n, f in xs:
+        for an, af in (("0", lambda W: 0), ("1", lambda W: 1), ("9", lambda W: 9), ("Bm1", lambda W: W.bits(A) - 1), ("B", lambda W: W.bits(A)),
+                       ("63", lambda W: 63), ("100", lambda W: 100), ("n1", lambda W: -1)):
+            if an == "n1" and not signed_amt:
+                continue
+
+            def env_fn(W, f=f, af=af):
+                aw = W.bits(R, W.m)
+                lo, hi = (-(1 << (aw - 1)), (1 << (aw - 1)) - 1) if signed_amt else (0, (1 << aw) - 1)
+                a_ = min(max(af(W), lo), hi)         # an amount the amount type can hold
+                return {0: W.wrap(A, f(W)), 1: W.wrap(R, a_, W.m)}
+            reps.append(("%s_by_%s" % (n, an), env_fn, exp))
+    old = core.WORLDS_FOR
+    # (value digits N, amount digits M); the large N make BITS exceed what a one-digit u8 / i8 amount type can hold
+    core.WORLDS_FOR = lambda f: [(1, 1), (2, 1), (3, 1), (3, 2), (2, 3), (4, 1), (16, 1), (32, 1), (40, 1), (40, 2)]
+    try:
+        return core.g_row(K, PROP, fid, reps)
+    finally:
+        core.WORLDS_FOR = old
